@@ -52,16 +52,18 @@ var (
 	maxI64p = two63 // exclusive
 )
 
-// unsignedOf: sum of bit_i * 2^(n-1-i).
+// unsignedOf: sum of bit_i * 2^(n-1-i). The bits are grouped right aligned into
+// base 256 digits (most significant first) for big.Int.SetBytes.
 func unsignedOf(f []byte) *big.Int {
-	v := new(big.Int)
-	for _, b := range f {
-		v.Lsh(v, 1)
+	n := len(f)
+	digits := make([]byte, (n+7)/8)
+	for i, b := range f {
 		if b != 0 {
-			v.Or(v, bigOne)
+			w := n - 1 - i // weight 2^w
+			digits[len(digits)-1-w/8] |= 1 << uint(w%8)
 		}
 	}
-	return v
+	return new(big.Int).SetBytes(digits)
 }
 
 // byteSwap reverses the order of the 8 bit groups of f (len(f)%8 == 0).
